@@ -52,14 +52,23 @@ Example C04_errors_hyps_satisfiable :
   is_nan_inf64 9221120237041090560 = true /\ has_opts 39 (b_f64 prims_jit) = false /\ unsupported_kind KChan = true.
 Proof. repeat split; reflexivity. Qed.
 
-(* invalid output of a user MarshalJSON is rejected unless validation was explicitly disabled *)
+(* invalid output of a user MarshalJSON: rejected under CompactMarshaler (json.Compact); without it the native validator
+   decides (unless NoValidateJSONMarshaler) - and that routine accepts invalid escapes / raw control characters inside strings *)
 Theorem C04_marshaler_output_checked : forall flags ret, json_valid ret = false ->
-  has_opts flags BitCompactMarshaler = true \/ has_opts flags BitNoValidateJSONMarshaler = false ->
-  encodeJsonMarshaler flags (OOk ret) = Some None.
+  has_opts flags BitCompactMarshaler = true -> encodeJsonMarshaler flags (OOk ret) = Some None.
 Proof. exact marshaler_output_checked. Qed.
 
 Theorem C04_marshaler_output_valid : forall flags ret out, encodeJsonMarshaler flags (OOk ret) = Some (Some out) ->
-  has_opts flags BitCompactMarshaler = true \/ has_opts flags BitNoValidateJSONMarshaler = false ->
-  json_valid ret = true.
+  has_opts flags BitCompactMarshaler = true -> json_valid ret = true.
 Proof. exact marshaler_output_valid. Qed.
 Print Assumptions C04_marshaler_output_valid.
+
+Theorem C04_marshaler_output_native_checked : forall flags ret, native_valid ret = false ->
+  has_opts flags BitCompactMarshaler = false -> has_opts flags BitNoValidateJSONMarshaler = false ->
+  encodeJsonMarshaler flags (OOk ret) = Some None.
+Proof. exact marshaler_output_native_checked. Qed.
+
+Theorem C04_marshaler_output_native_refuted :
+  exists ret, json_valid ret = false /\ encodeJsonMarshaler 0 (OOk ret) = Some (Some ret).
+Proof. exact marshaler_output_native_refuted. Qed.
+Print Assumptions C04_marshaler_output_native_refuted.
